@@ -41,7 +41,10 @@ def gen_named(rng, lf_ok=True, force=None):
     g = s.add({"kind": "tag", "target": c2, "name": b"v1"})
     g2 = s.add({"kind": "tag", "target": g, "name": b"v2"})
     s.refs.append((rng.choice([b"refs/heads/main", b"refs/heads/caf\xc3\xa9", b"refs/heads/q\"uote", b"refs/heads/a'b", b"refs/heads/\xff\xfe",
-                               b"refs/heads/" + b"n" * 200]), c2))
+                               b"refs/heads/" + b"n" * 200, b"refs/heads/wide\xc2\xa0name", b"refs/heads/ls\xe2\x80\xa8sep",
+                               b"refs/heads/ideo\xe3\x80\x80space", b"refs/heads/nel\xc2\x85x", b"refs/heads/en\xe2\x80\x82quad"]), c2))
+    if rng.random() < 0.3:
+        s.refs.append((rng.choice([b"refs/tags/thin\xe2\x80\x89sp", b"refs/notes/nb\xc2\xa0sp", b"refs/remotes/o/fig\xe2\x80\x87sp"]), c))
     s.refs.append((b"refs/tags/v2", g2))
     return s.compute(), names
 
